@@ -27,7 +27,7 @@ class Check(RecordingCheck):
             "{transient, crash}, then recovery runs with and without an edit vs fresh-backend runs, PRAGMA foreign_key_check")
 
     def correspond(self):
-        n = 70 if self.tier == "quick" else 900
+        n = 50 if self.tier == "quick" else 900
         self.mismatches = self.correspond_ops(n, 0.8, "C22")
 
     # ------------------------------------------------------------------ oracle (a): retried operations
@@ -69,7 +69,7 @@ class Check(RecordingCheck):
     # ------------------------------------------------------------------ oracle (b): end to end
     def oracle_e2e(self, work):
         n = 0
-        plan_names = [("two_args", 1), ("chain", 3)] if self.tier == "quick" else [(w, 1) for w in rl.MODELLED_WORKLOADS]
+        plan_names = [("two_args", 1), ("chain", 0)] if self.tier == "quick" else [(w, 1) for w in rl.MODELLED_WORKLOADS]
         for name, stride in plan_names:
             db = rl.fresh_db(str(work), "probe.db")
             _, _, log, s = rl.sched_run(name, rl.LEAF_V1[name], db)
@@ -81,7 +81,8 @@ class Check(RecordingCheck):
                 occ[i] = seen_sites.get(st, 0)
                 seen_sites[st] = occ[i] + 1
             rcn = [i for i, _, site in log if "record_call_node" in site]
-            chosen = sorted(set(idx[::stride]) | set(rcn))
+            # stride 0: only (every second of) the commits inside record_call_node
+            chosen = sorted(set(idx[::stride]) | set(rcn)) if stride else rcn[::2]
             # the history without any fault: what it already gets wrong is not charged to a fault position
             base = self.e2e(name, [], work, f"e{n}")
             n += 1
@@ -137,6 +138,9 @@ class Check(RecordingCheck):
         self.evaluations += n1 + n2
         self.stat("oracle", "retried_operations", n1)
         self.stat("oracle", "end_to_end_fault_positions", n2)
+        # report what is closest to the property text first: wrong results, then dead recovery runs, then the rest
+        rank = lambda f: 0 if "stale-result" in f.key else 1 if f.key.startswith("recovery-") else 2 if f.key.startswith("retry-") else 3
+        self.findings.sort(key=rank)
         from harness.lib import load_known_findings
         known = {k["key"] for k in load_known_findings() if k.get("property") == self.id}
         unknown = [f for f in self.findings if f.key not in known]
